@@ -228,6 +228,54 @@ def run(ctx):
     r = ctx.rule("C02-R12", "SENTINEL", "strict means strict: the facade Command.parse replaces the mode by the config's setting only when none was given "
                  "(`is None`), never with `or` (same rule as C05-R5)", reference=1)
     explicit_mode_rule(ctx, r)
+
+    # ---------------------------------------------------------------- R13
+    r = ctx.rule("C02-R13", "EXC", "what is raised is an exception object: every `raise f(...)` whose f is a function of the package (an error factory) gets a value back on "
+                 "every path of f - no path of a factory falls off its end or returns nothing (`raise None` is a TypeError, which escapes in strict and lenient mode alike)", reference=20)
+    for fn in [f for f in p.all_functions() if f.module.name.startswith(("clikit.args", "clikit.api.args", "clikit.resolver", "clikit.api.resolver", "clikit.api.command"))]:
+        for rz in q.raises(fn):
+            if not isinstance(rz.exc, ast.Call):
+                continue
+            cs = cg.site_for(fn, rz.exc)
+            for t in (cs.targets if cs is not None else []):
+                if t.name == "__init__" or getattr(t, "is_lambda", False):
+                    continue
+                tcfg = ctx.cfg(t)
+                valued = {n.id for n in tcfg.nodes if n.kind == "return" and n.ast.value is not None and not (isinstance(n.ast.value, ast.Constant) and n.ast.value.value is None)}
+                bare = [n for n in tcfg.nodes if n.kind == "return" and n.id not in valued]
+                falls = tcfg.exit.id in tcfg.reach([tcfg.entry.id], blocked=valued | {n.id for n in bare})
+                if bare or falls:
+                    r.fail(t, (bare[0].ast if bare else t.node), "%s returns nothing" % t.short, "%s is raised from (%s) but has a path that returns no exception object: `raise None` is a TypeError - it is neither of the "
+                           "documented parse errors and is not swallowed in lenient mode" % (t.short, fn.short))
+                else:
+                    r.ok("%s: raise %s(...) - the factory returns a value on every path" % (fn.short, t.short))
+
+    # ---------------------------------------------------------------- R14
+    r = ctx.rule("C02-R14", "GUARD", "'a missing required value ... raises the cannot-parse error': the requires-a-value error depends on nothing but the value being absent and the "
+                 "option requiring one - no other predicate of the option (multi-valued, optional, ...) stands between `value is None` and the raise", reference=1)
+    n14 = 0
+    for m in sorted(parser.methods.values(), key=lambda f: f.name):
+        cfg = ctx.cfg(m)
+        for rz in q.raises(m):
+            if rz.exc is None or "requires_value" not in norm(rz.exc):
+                continue
+            n14 += 1
+            for rn in cfg.nodes_of(rz):
+                extra = []
+                for e in cfg.nodes:
+                    if e.kind not in ("T", "F") or e.ast is None or not cfg.dominates(e.id, rn.id):
+                        continue
+                    for x in walk_no_nested(e.ast):
+                        if isinstance(x, ast.Call) and isinstance(x.func, ast.Attribute) and x.func.attr.startswith(("is_", "accepts_")) and x.func.attr != "is_value_required" \
+                                and not (isinstance(x.func.value, ast.Name) and x.func.value.id in ("self", "fmt")):
+                            extra.append((e, x))
+                if extra:
+                    e, x = extra[0]
+                    r.fail(m, rz, "requires-value raise under %s%s" % ("" if e.kind == "T" else "not ", norm(x)), "%s raises the requires-a-value error only when %s%s as well: an option that requires a value and %s is "
+                           "accepted without one (bare '--opt', '--opt=')" % (m.short, "" if e.kind == "T" else "not ", norm(x), "is not so" if e.kind == "T" else "is so"))
+                else:
+                    r.ok("%s: %s depends on the value and is_value_required() only" % (m.short, norm(rz)[:60]))
+    ctx.require(n14 >= 1, "the requires-a-value raise of the parser was not found")
     return ctx.results
 
 
